@@ -17,6 +17,22 @@ MIDDLE = [["map", "add0"], ["filter", "true"], ["skip", "0"], ["scan", "add", "0
 # operators that emit (at least) one item for every one or two items they receive, whatever the values
 SAFE_BELOW_COUNT = [["map", "add0"], ["filter", "true"], ["skip", "0"], ["scan", "add", "0"], ["tap"], ["distinct"],
                     ["pairwise"], ["bufcount", "1"], ["skipwhile", "false"], ["duc"], ["dflt", "9"]]
+TIME_MIDDLE = [["buftime", "2"], ["buftime", "3"], ["bufcounttime", "2", "3"], ["delay", "1"], ["delay", "2"],
+               ["observeon"], ["debounce", "1"], ["throttle", "2", "l"], ["throttle", "2", "a"], ["throttle", "1", "t"]]
+TIME_HEADS = {"buftime": 1, "bufcounttime": 2, "delay": 1, "debounce": 1, "throttle": 1, "interval": 1}
+
+
+def time_budget(node):
+    """sum of all periods / windows / delays of the pipe: how long after the subscriber's terminal a task of
+    the pipeline may legitimately still be live (each stage needs at most one more period of its own)"""
+    if not isinstance(node, list) or not node:
+        return 0
+    b = 0
+    if isinstance(node[0], str) and node[0] in TIME_HEADS:
+        b += int(node[TIME_HEADS[node[0]]])
+    return b + sum(time_budget(x) for x in node[1:] if isinstance(x, list))
+
+
 TWO = ["merge", "zip", "combine", "withlatest", "takeuntil", "skipuntil", "sample", "buffer"]
 STREAMS = ("stream", "streamres")
 
@@ -63,6 +79,21 @@ class C16(Prop):
                 pipe = rng.choice(MIDDLE) + [pipe]
             out.append(Case("time", rng.choice(["local", "threads"]), [("pipe", [pipe])],
                             tail_script(p, 6 * p + 6), {"kind": "interval-main", "period": p}))
+        # … with scheduler-using operators among the intermediates: their own tasks (flush timer of
+        # buffer_with_time, window / debounce tasks, per-item tasks of delay / observe_on) must retire too
+        for _ in range(reps):
+            p = rng.choice([1, 2])
+            pipe = ["interval", str(p)]
+            nt = 0
+            for _ in range(rng.randint(1, 3)):
+                if rng.random() < 0.6 and nt < 2:
+                    nt += 1
+                    pipe = rng.choice(TIME_MIDDLE) + [pipe]
+                else:
+                    pipe = rng.choice(MIDDLE) + [pipe]
+            pipe = rng.choice(CUTTERS) + [pipe]
+            out.append(Case("time", rng.choice(["local", "threads"]), [("pipe", [pipe])],
+                            tail_script(p, 8 * p + 8 + 3 * time_budget(pipe)), {"kind": "interval-main-time", "period": p}))
         # interval as second input of a two-input operator; the main input is a hot subject
         for _ in range(reps):
             p = rng.choice([1, 2, 3])
@@ -235,9 +266,9 @@ class C16(Prop):
                 return {"kind": "iterator-drained", "event": 1,
                         "detail": f"{pulls} items pulled, the observer was finished after {mp}"}
             return None
-        p = case.meta.get("period")
-        if p is None:
+        if "interval" not in tg._heads_of(case.field("pipe")[0], set()):
             return None
+        p = time_budget(case.field("pipe")[0])
         t_term = None
         for k, e in enumerate(case.events):
             b = lines.get(k)
